@@ -114,9 +114,12 @@ class TileModel(Cacheable):
         self.objects = TileObjects(self.table)
         self.rows_seen = []
         self.registered = []
+        self.string_resets = 0
+        self.row_epochs = []
 
     def init_table_strings(self, table_id):
-        pass
+        # the real one empties the table's string list and restarts key allocation: every key handed out before is void
+        self.string_resets += 1
 
     def recalculate_row_headers(self, table_id, data):
         pass
@@ -138,6 +141,7 @@ class TileModel(Cacheable):
 
     def recalculate_row_info(self, table_id, data, tile_row_offset, row):
         self.rows_seen.append((row, tile_row_offset))
+        self.row_epochs.append(self.string_resets)       # the key numbering under which this row's text cells are encoded
         return Rec(tile_row_index=row - tile_row_offset, row=row)
 
 
@@ -163,6 +167,10 @@ def h07b_tiles(n, wide, window):
             assert tile.rowInfos[j].row == 256 * i + j
         total += tile.numrows
     assert total == n
+    # the string list is reset exactly once, before the first row is encoded: all rows' string keys live in ONE numbering
+    assert m.string_resets == 1
+    for e in m.row_epochs:
+        assert e == 1
     # every tile archive the save creates is referenced by the table and listed in the package metadata
     created = [tid for tid, _ in m.objects.created]
     assert [ref.tile.identifier for ref in tiles] == created
